@@ -100,7 +100,9 @@ def breakpoints(cls: str, p: list[float]) -> list[float]:
         return p + [0.5 * (p[0] + p[1]), 0.5 * (p[2] + p[3])]
     if cls in ("Cosine",):
         return [p[0], p[0] - 0.5 * p[1], p[0] + 0.5 * p[1]]
-    if cls in ("SemiEllipse", "Rectangle", "Arc", "Ramp", "Concave"):
+    if cls == "Concave":
+        return [p[0], p[1], 0.5 * (p[0] + p[1]), 2.0 * p[1] - p[0]]  # the last one is the pole of the unused branch
+    if cls in ("SemiEllipse", "Rectangle", "Arc", "Ramp"):
         return [p[0], p[1], 0.5 * (p[0] + p[1])]
     if cls in ("Bell",):
         return [p[0], p[0] - p[1], p[0] + p[1]]
